@@ -79,7 +79,7 @@ def register(check):
                "(b) whole tunnels {forward, reverse, nested} x carrier capacity {unbounded,1,4}: a stream of 6-15 messages (0 B..200 kB, total >> window) whose reader is stepped one message at a time, judged on the tap at every quiescent point, with unary round trips in between; "
                "non-trivial = a conservation/progress obligation was evaluated; distinct = distinct set of observed step orders (a) or op/outcome shape (b)",
           nontrivial="tap_events",
-          floors={"quick": {"fccore_runs": 4000, "fccore_waits_entered": 3000, "fccore_update_between_load_and_wait": 300, "fccore_sender_observed_blocked": 300, "fccore_cancelled_runs": 200, "progress_runs": 150, "progress_blocked_points": 300},
+          floors={"quick": {"fccore_runs": 4000, "fccore_waits_entered": 3000, "fccore_update_between_load_and_wait": 300, "fccore_sender_observed_blocked": 300, "fccore_cancelled_runs": 200, "progress_runs": 150, "progress_blocked_points": 300, "fcstress_rounds": 80},
                   "thorough": {"fccore_runs": 200000, "fccore_waits_entered": 150000, "fccore_update_between_load_and_wait": 15000, "progress_runs": 5000, "progress_blocked_points": 10000}},
           assumptions=COMMON_ASSUMPTIONS + ["unbounded total volume is sampled up to a few MB per stream; 'never strands' is decided at bubble quiescence (nothing runnable, no timer pending)"])
     check("C06",
@@ -88,7 +88,7 @@ def register(check):
                "(b) enforcement side: a raw tunnel client overruns one stream (exactly one window, +1 byte, +1 chunk, 5 windows, across messages, after partial credit exact/+1, on one of several streams, one huge frame, 32 MiB flood with heap measurement) and a raw tunnel server overruns a caller; "
                "non-trivial = at least one data frame was judged by the window monitor or an overrun verdict was reached; distinct = distinct (family, cfg, kind, op/outcome shape)",
           nontrivial="tap_events",
-          floors={"quick": {"win_data_events": 20000, "win_credits": 15000, "win_full_windows": 1000, "overrun_runs": 36, "overrun_expected_re": 24, "overrun_expected_ok": 6, "flood_bytes": 60000000, "rawsrv_expect_rexhausted": 4},
+          floors={"quick": {"win_data_events": 20000, "win_credits": 15000, "win_full_windows": 1000, "overrun_runs": 36, "overrun_expected_re": 24, "overrun_expected_ok": 6, "flood_bytes": 60000000, "rawsrv_expect_rexhausted": 4, "fcstress_rounds": 80},
                   "thorough": {"win_data_events": 600000, "win_credits": 400000, "overrun_runs": 1000, "flood_bytes": 300000000}},
           assumptions=COMMON_ASSUMPTIONS + ["'buffers' = the un-consumed receive queue that flow control accounts for; the reassembly buffer of the one message being read is not counted (DESIGN.md C06)"])
     check("C13",
